@@ -30,14 +30,16 @@ HAN = [0xE6, 0xBC, 0xA2]
 TEMPLATES_QUICK = [
     [None], [None, None], [None, None, None],
     E_ACUTE + [None], [None] + E_ACUTE, [None] + NBSP, [ord('a')] + [0xC2, 0x85],
+    list(b'---') + [None], [None] + list(b'---'),
 ]
 TEMPLATES_THOROUGH = TEMPLATES_QUICK + [
+    list(b'--') + [None, None], [34, None, 34],
     [None] * 4, HAN + [None, None], [32, 32, None, None], [None, None] + NBSP, [None, 0xE2, 0x80, 0x83],
     list(b'src/') + [None, None] + list(b'.rs'),
 ]
 
 BOUNDS = {
-    'quick': 'R1/R2: 1 file x 1 entry x {0,1,2} ranges, 1 file x 2 entries x 1 range, or 2 files x 1 entry x 1 range; path = one of %d templates with <=3 fully symbolic bytes (0x01-0x7f minus LF) plus concrete multi-byte scalars; hash = 2 symbolic printable non-space bytes; line numbers symbolic u32 <= 99 (one shape near u32::MAX); base sha 4 symbolic hex; R3: every text of <= 5 bytes over {\" SP - , 0 9 a LF CR TAB} and the same text followed by LF---LF{}; R4: remap with 8-hex symbolic target' % len(TEMPLATES_QUICK),
+    'quick': 'R1/R2: 1 file x 1 entry x {0,1,2} ranges, 1 file x 2 entries x 1 range, or 2 files x 1 entry x 1 range; path = one of %d templates with <=3 fully symbolic bytes (0x01-0x7f minus LF) plus concrete multi-byte scalars; hash = 2 symbolic printable non-space bytes; line numbers symbolic u32 <= 99 (one shape near u32::MAX); base sha 4 symbolic hex; R3: every text of <= 5 bytes over {\" SP - , 0 9 a LF CR TAB} and the same text followed by LF---LF{}; R4: remap of a 4-hex symbolic base with a symbolic hex target of length 0, 2, 4 or 8' % len(TEMPLATES_QUICK),
     'thorough': 'as quick with %d path templates (<=4 symbolic bytes), <=3 ranges per entry, 2 files x 2 entries, three digit-length classes per number; R3 texts <= 7 bytes' % len(TEMPLATES_THOROUGH),
 }
 OUTSIDE = 'paths containing LF or NUL; hashes containing whitespace (the standard requires hex); prompt records are opaque to the codec model (serde_json is trusted for the JSON half); logs with more than 2 files / 3 ranges; line numbers with 3-9 digits'
@@ -71,8 +73,9 @@ def plan(tier, seed):
         if n <= n3 - 1:
             tasks.append(('parse_total', {'n': n, 'tail': True}))
     for ti in (0, 1, 3):
-        tasks.append(('remap', {'files': [{'t': ti, 'entries': [1]}], 'big': False}))
-    tasks.append(('remap', {'files': [], 'big': False}))
+        tasks.append(('remap', {'files': [{'t': ti, 'entries': [1]}], 'big': False, 'tlen': 8}))
+    for tlen in (0, 2, 4, 8):
+        tasks.append(('remap', {'files': [], 'big': False, 'tlen': tlen}))
     return tasks
 
 
@@ -339,7 +342,7 @@ def ob_remap(h, shape):
     M = P.M
     log = build_log(h, shape)
     known = path_classes(h, log)
-    tgt_sha = h.hexbytes('target', 8)
+    tgt_sha = h.hexbytes('target', shape.get('tlen', 8))
     h.inputs_struct = dict(h.inputs_struct, target=ByteStr(tgt_sha))
     try:
         r = P.call_named(LOG + '::serialize_to_string', [Ref(Cell(log))])
